@@ -14,6 +14,7 @@
                                   (syntax table as a list of (value, width) bit fields, Model/Aac.v)
      profile_of o                 ADTS profile of object type o: Main 1 -> 0, SSR 3 -> 2, LC 2 / HE 5 / HEv2 29 -> 1 *)
 From Verif Require Import Lib.Base Lib.Sx Lib.Bitfield Model.Aac Proofs.AacBits Proofs.Aac.
+From Verif Require Import Gen.Gen_aac.
 Open Scope N_scope.
 
 (* The configurations the library accepts are exactly: object type in {Main 1, LC 2, SSR 3,
@@ -72,6 +73,43 @@ Theorem c11_iso_reader h raw tail st :
   = (mk_asc (h_profile h + 1) (h_sfi h) (h_ch h), Ok (raw, tail)).
 Proof.
   intros. apply decode_spec_frame; unfold hdr_wf, hdr_accepted; try assumption; repeat split; try assumption; lia.
+Qed.
+
+(* SCOPE of c11_iso_reader: frames with ONE raw data block (the "their raw data block" of the
+   property; the number_of_raw_data_blocks_in_frame FIELD is free above, the payload is one block).
+   Frames of the independent writer with SEVERAL raw data blocks (field value n = 1..3, n+1 blocks,
+   ISO 13818-7 6.2.1; spec_adts_frame_multi, multi_ok = field widths, accepted configuration,
+   field = #blocks - 1, every block non-empty, frame length <= 8191):
+   - without protection the library returns the blocks concatenated and leaves exactly [tail]
+     (the block boundaries are not in the ADTS layer) -- c11_multi_block;
+   - with protection it skips only the first two bytes behind the 7-byte header, so framing and
+     configuration are right but the returned bytes are the rest of the raw_data_block_position
+     table, the header crc_check and the blocks interleaved with their per-block crc_checks
+     (c11_multi_block_crc_partial) -- NOT the raw data blocks (c11_multi_block_crc_refuted; known
+     finding multi-rdb-crc). *)
+Theorem c11_multi_block h blocks tail st :
+  multi_ok h blocks -> h_pa h = 1 ->
+  adts_decode st (spec_adts_frame_multi h blocks ++ tail) = (frame_asc h, Ok (flat_map fst blocks, tail)).
+Proof. exact (decode_multi_nocrc h blocks tail st). Qed.
+
+Theorem c11_multi_block_crc_partial h blocks tail st :
+  multi_ok h blocks -> h_pa h = 0 ->
+  adts_decode st (spec_adts_frame_multi h blocks ++ tail) =
+  (frame_asc h, Ok (skipn 2 (spec_multi_body h blocks), tail)).
+Proof. exact (decode_multi_crc h blocks tail st). Qed.
+
+Theorem c11_multi_block_crc_refuted :
+  exists h blocks, multi_ok h blocks /\ h_pa h = 0 /\
+    snd (adts_decode asc0 (spec_adts_frame_multi h blocks)) <> Ok (flat_map fst blocks, []).
+Proof. exact decode_multi_crc_refuted. Qed.
+
+Example c11_multi_block_nonvacuous :
+  multi_ok (mk_hdr 1 0 1 1 4 0 2 0 0 0 0 2047 2 0) [([1], 0); ([2; 3], 0); ([4], 0)] /\
+  spec_adts_frame_multi (mk_hdr 1 0 1 1 4 0 2 0 0 0 0 2047 2 0) [([1], 0); ([2; 3], 0); ([4], 0)]
+  = [255; 249; 80; 128; 1; 127; 254; 1; 2; 3; 4].
+Proof.
+  split; [|vm_compute; reflexivity].
+  unfold multi_ok, hdr_wf, hdr_accepted. cbn. repeat split; try lia; try discriminate. repeat constructor; cbn; lia.
 Qed.
 
 (* every such frame starts with the 12-bit sync word *)
@@ -178,6 +216,15 @@ Proof. exact (asc_unmarshal_total st data s). Qed.
 Theorem aac_adts_stream_total fuel st data acc s : snd (adts_stream fuel st data acc) <> Panic s.
 Proof. exact (adts_stream_total fuel st data acc s). Qed.
 
+(* the generated bodies of the four enum String helpers return a string for every integer
+   (their texts are compared with the implementation's by the harness for all uint8 values) *)
+Theorem aac_enum_strings_total v :
+  (exists s, aac_ObjectType_String v = Ok s) /\ (exists s, aac_Profile_String v = Ok s) /\
+  (exists s, aac_SampleRateIndex_String v = Ok s) /\ (exists s, aac_Channels_String v = Ok s).
+Proof.
+  split; [apply objecttype_string_total|split; [apply profile_string_total|split; [apply sampleindex_string_total|apply channels_string_total]]].
+Qed.
+
 (* a successful Decode returns a split of its input: 7 or 9 header bytes, raw, left *)
 Theorem c11_decode_shape st data a raw rest :
   adts_decode st data = (a, Ok (raw, rest)) ->
@@ -214,24 +261,22 @@ Example c11_bound_sharp :
                snd (adts_decode asc0 adts) <> Ok (repeat 0 8185, []).
 Proof. eexists. split; [vm_compute; reflexivity|]. vm_compute. discriminate. Qed.
 
-(* outside the property (not a conformant frame), recorded for honesty: a header whose
-   frame_length field is smaller than the header itself is not refused as such -- the uint16
-   subtraction wraps, so with 65529 bytes behind a 7-byte header those bytes come back as one
-   "raw block"; with fewer bytes the call fails with "requires 65529 but only ..." *)
-Theorem c11_length_underflow_quirk st (p : bytes) :
-  let hdr := [255; 241; 80; 128; 0; 0; 252] in          (* LC, 44.1 kHz, stereo, frame_length 0 *)
-  (lenN p = 65529 -> adts_decode st (hdr ++ p) = (mk_asc 2 4 2, Ok (p, []))) /\
-  (1 <= lenN p < 65529 -> adts_decode st (hdr ++ p) = (mk_asc 2 4 2, Err 4)).
-Proof.
-  intros hdr. split; intros H; (destruct p as [|x p]; [change (lenN []) with 0 in H; lia|]);
-    unfold hdr; rewrite length_underflow.
-  - rewrite H. change (65529 <? 65529) with false. cbv iota.
-    rewrite <- (app_nil_r (x :: p)) at 1. rewrite splitN_app by exact H. reflexivity.
-  - replace (lenN (x :: p) <? 65529) with true by (symmetry; apply N.ltb_lt; lia). reflexivity.
-Qed.
+(* A header whose frame_length field is smaller than the header itself (7, or 9 with CRC) is
+   rejected whatever follows it, for every combination of the other header fields (fixed in
+   cd86513; before, uint16(frame_length - header) wrapped and 65529 following bytes came back as
+   one "raw block"); and a successful Decode always has frame_length >= header size. *)
+Theorem c11_short_frame_length_rejected h flen c0 c1 x rest st :
+  hdr_wf h -> flen < (if h_pa h =? 0 then 9 else 7) ->
+  exists a, adts_decode st (hdr7_of h flen ++ (if h_pa h =? 0 then [c0; c1] else []) ++ x :: rest) = (a, Err 9).
+Proof. exact (short_length_rejected h flen c0 c1 x rest st). Qed.
+
+Example c11_length_underflow_witness (p : bytes) :
+  snd (adts_decode asc0 ([255; 241; 80; 128; 0; 0; 252; 0] ++ p)) = Err 9.
+Proof. reflexivity. Qed.
 
 Print Assumptions c11_accepted.
-Print Assumptions c11_length_underflow_quirk.
+Print Assumptions c11_short_frame_length_rejected.
+Print Assumptions c11_length_underflow_witness.
 Print Assumptions c11_bound_sharp.
 Print Assumptions c11_adts_rt.
 Print Assumptions c11_setasc_rt.
@@ -239,6 +284,10 @@ Print Assumptions c11_encoder_iso_layout.
 Print Assumptions c11_encode_rejects.
 Print Assumptions c11_iso_reader.
 Print Assumptions c11_frame_sync.
+Print Assumptions c11_multi_block.
+Print Assumptions c11_multi_block_crc_partial.
+Print Assumptions c11_multi_block_crc_refuted.
+Print Assumptions c11_multi_block_nonvacuous.
 Print Assumptions c11_stream.
 Print Assumptions c11_stream_step.
 Print Assumptions c11_asc_unmarshal.
@@ -254,6 +303,7 @@ Print Assumptions aac_adts_dec_total.
 Print Assumptions aac_asc_dec_total.
 Print Assumptions aac_adts_stream_total.
 Print Assumptions c11_decode_shape.
+Print Assumptions aac_enum_strings_total.
 Print Assumptions c11_adts_rt_nonvacuous.
 Print Assumptions c11_crc_witness.
 Print Assumptions c11_stream_nonvacuous.
